@@ -290,6 +290,17 @@ def run(c, prog, ctx):
     c.inst("R5.discount-base", "starts from scaled_size(4)", start == ["transaction::Transaction::scaled_size(arg1, 4)"], "base %s" % start, fd.where(), fd.path)
 
     # ---- R6 block
+    # the crate's own VarInt::size (used by Block::size/weight) as a function of the value: exact at every boundary
+    from .c15 import Fn as _Fn, decide as _decide
+    VS = _Fn(prog, "encode::VarInt::size")
+    pts = [0, 1, 0xFB, 0xFC, 0xFD, 0xFE, 0xFF, 0x100, 0xFFFE, 0xFFFF, 0x10000, 0x10001, 0xFFFFFFFE, 0xFFFFFFFF, 0x100000000, 0x100000001, (1 << 64) - 1]
+    bad = []
+    for v in pts:
+        r = _decide(VS.L, {"v": v}, {"arg1.0": "v"})
+        exp = 1 if v <= 0xFC else 3 if v <= 0xFFFF else 5 if v <= 0xFFFFFFFF else 9
+        if r != ("ret", str(exp)):
+            bad.append((hex(v), r, exp))
+    c.inst("R6.varint-size", "VarInt::size(v) = 1 / 3 / 5 / 9 with boundaries 0xFC, 0xFFFF, 0xFFFFFFFF (the encoder's, C01.R6)", not bad, "deviations %s" % bad[:4], VS.f.where(), VS.f.path)
     fb = prog.fn("block::Block::size")
     t = show(Prov(fb.body).local(0), -30)
     H = "(std::vec::Vec::len(encode::serialize(arg1.header)) AddWithOverflow encode::VarInt::size(encode::VarInt::VarInt{(std::vec::Vec::len(arg1.txdata) as u64)})).0"
